@@ -16,7 +16,8 @@ import sys
 import loop
 from tlslite.constants import ContentType, HandshakeType, AlertDescription, AlertLevel, CertificateType
 from tlslite.messages import (Message, ChangeCipherSpec, HelloRequest, ServerHelloDone, Finished,
-                              NewSessionTicket1_0, KeyUpdate, Certificate, ApplicationData, Alert)
+                              NewSessionTicket1_0, KeyUpdate, Certificate, ApplicationData, Alert,
+                              CertificateRequest)
 from tlslite.x509certchain import X509CertChain
 from tlslite import errors as tlserr
 
@@ -95,6 +96,20 @@ def extra_item(what, epoch, ver, version, ref_items):
         c = Certificate(CertificateType.x509, version)
         c.create(X509CertChain([]), bytearray()) if version >= (3, 4) else c.create(X509CertChain([]))
         return Item(hs, c.write(), epoch, ver)
+    if what == 'CR':
+        from tlslite.constants import ClientCertificateType, HashAlgorithm, SignatureAlgorithm, SignatureScheme
+        cr = CertificateRequest(version)
+        if version >= (3, 4):
+            from tlslite.extensions import SignatureAlgorithmsExtension
+            ext = SignatureAlgorithmsExtension().create([SignatureScheme.rsa_pss_rsae_sha256,
+                                                         SignatureScheme.rsa_pkcs1_sha256])
+            cr.create(context=b'', extensions=[ext])
+        else:
+            cr.create([ClientCertificateType.rsa_sign], [],
+                      [(HashAlgorithm.sha256, SignatureAlgorithm.rsa), (HashAlgorithm.sha1, SignatureAlgorithm.rsa)])
+        it = Item(hs, cr.write(), epoch, ver)
+        it.swallow = True
+        return it
     if what == 'CH' or what == 'SH':
         for it in ref_items:
             if it.ct == hs and it.kind() in (what, 'HRR' if what == 'SH' else what):
@@ -128,6 +143,9 @@ class DevPeer(object):
         conn._queue_flush = self.queue_flush
         rl.changeWriteState = self.changeWriteState
         self.swap_pending = None
+        self.swallow_cert = False     # the peer (a server) asked for a certificate it did not plan
+        self.orig_getmsg = conn._getMsg
+        conn._getMsg = self.getMsg
         sock.tap = self.tap
         self.applied = []
         self.honest_log = []          # (k, kind, epoch, flight)
@@ -160,11 +178,26 @@ class DevPeer(object):
         if False:
             yield 0
 
+    def getMsg(self, expectedType, secondaryType=None, constructorType=None):
+        """peer side only: a server that slipped in a CertificateRequest of its own consumes the
+        Certificate message a lenient client answers with (a consistently deviating peer)"""
+        want = secondaryType if isinstance(secondaryType, tuple) else (secondaryType,)
+        if self.swallow_cert and (HandshakeType.client_key_exchange in want or
+                                  (self.version >= (3, 4) and HandshakeType.finished in want)):
+            self.swallow_cert = False
+            for r in self.orig_getmsg(ContentType.handshake, HandshakeType.certificate, CertificateType.x509):
+                if r in (0, 1):
+                    yield r
+        for r in self.orig_getmsg(expectedType, secondaryType, constructorType):
+            yield r
+
     def _hold(self, it, k=None, extra=False, do_hash=True):
         """queue an Item for the current flight; the peer's OWN transcript covers exactly what it
         really sends (a consistently deviating peer, not an on-path modification)"""
         it.k = k
         it.extra = extra
+        if getattr(it, 'swallow', False) and not self.conn._client:
+            self.swallow_cert = True
         if it.ct == ContentType.handshake and do_hash:
             self.conn._handshake_hash.update(bytearray(it.data))
         self.held.append(it)
@@ -399,6 +432,17 @@ def apply_ops(dp, items):
         o_split = next((o for o in ops if o['op'] == 'split' and o.get('k') == k and k is not None), None)
         o_coal = next((o for o in ops if o['op'] == 'coalesce' and o.get('k') == k and k is not None), None)
         o_span = next((o for o in ops if o['op'] == 'span' and o.get('k') == k and k is not None), None)
+        o_glue = next((o for o in ops if o['op'] == 'glue' and o.get('k') == k and k is not None), None)
+        if o_glue and it.ct == ContentType.handshake:
+            # an extra handshake message rides in the SAME record, behind message k (it is not part
+            # of the peer's transcript: it belongs to what follows)
+            x = extra_item(o_glue['what'], it.epoch, it.ver, dp.version, dp.sent_items)
+            if x is not None:
+                recs.append({'items': [it, x],
+                             'syms': [hsym(it, it.epoch, 'PH', False), hsym(x, it.epoch, 'PBufH', True)]})
+                dp.applied.append(o_glue)
+                i += 1
+                continue
         if o_split and it.ct == ContentType.handshake and len(it.data) > 1:
             a, b = split_at(it.data, o_split.get('at', 2))
             ia, ib = it.copy(), it.copy()
